@@ -3,7 +3,7 @@
 Engine S, exponent domain: chain_z, chain_h2_eff and both ClearH impls are executed from MIR on a
 point with a *symbolic integer* exponent e over a formal generator; the solver shows result = h_eff*e."""
 import z3
-from mirsym import ref, models
+from mirsym import ref, models, load
 from mirsym.sym import State, GE, Inconclusive
 from . import common as C
 
@@ -50,12 +50,184 @@ def run(ctx):
     chk.assumptions += ['double/add_assign/negate of the curve types act as the abelian group law (C01); sub_assign is the real default method (negate + add) executed from MIR',
                         '[h_eff] maps E(Fq) resp. E\'(Fq2) into the order-r subgroup (group structure, RFC 9380 8.8 / [BP17]); trusted']
     chk.trusted += ['rustc MIR printer', 'mirsym', 'z3']
+    try:
+        finite_order(ctx, res)
+    except Inconclusive as e_:
+        ctx.inconclusive('encoder (finite-order pass): %s' % e_)
     chk.discharge()
     for o in chk.failed():
         o.handled = True
+        if isinstance(o.meta, dict) and 'finite_order' in o.meta:
+            confirm_finite_order(ctx, o, res)
+            continue
         ctx.violation('cofactor:' + o.name.split(':')[0] + ':' + o.name.split(':')[1][:20],
                       'cofactor clearing: %s fails' % o.name, {'obligation': o.name, 'model': o.model,
                                                                'computed_multiplier': {k: str(z3.simplify(z3.substitute(v, (e, z3.IntVal(1))))) for k, v in res.items()}})
+
+
+def _val(p_, c, cap):
+    """p-adic valuation of the integer c, capped (c = 0: cap)"""
+    if c == 0:
+        return cap
+    v = 0
+    while v < cap and c % p_ == 0:
+        c //= p_
+        v += 1
+    return v
+
+
+def _distribute(x):
+    """an integer term built from numerals, + , * , - and if-then-else -> list of (condition, python int) leaves"""
+    if isinstance(x, int):
+        return [(z3.BoolVal(True), x)]
+    x = z3.simplify(x)
+    if z3.is_int_value(x):
+        return [(z3.BoolVal(True), x.as_long())]
+    k = x.decl().kind()
+    if k == z3.Z3_OP_ITE:
+        c = x.arg(0)
+        return [(z3.And(c, c1), v) for c1, v in _distribute(x.arg(1))] + [(z3.And(z3.Not(c), c1), v) for c1, v in _distribute(x.arg(2))]
+    if k in (z3.Z3_OP_ADD, z3.Z3_OP_MUL, z3.Z3_OP_SUB, z3.Z3_OP_UMINUS):
+        parts = [_distribute(ch) for ch in x.children()]
+        acc = parts[0] if k != z3.Z3_OP_UMINUS else [(c, -v) for c, v in parts[0]]
+        for nxt in parts[1:]:
+            new = []
+            for c1, v1 in acc:
+                for c2, v2 in nxt:
+                    v = v1 + v2 if k == z3.Z3_OP_ADD else v1 * v2 if k == z3.Z3_OP_MUL else v1 - v2
+                    new.append((z3.And(c1, c2), v))
+            acc = new
+            if len(acc) > 4096:
+                raise Inconclusive('coefficient case split too large')
+        return acc
+    raise Inconclusive('coefficient term not understood: %s' % str(x)[:120])
+
+
+def finite_order(ctx, res):
+    """Second pass: the input is a generator P of a cyclic group of SYMBOLIC finite order m | #E (every point of the curve group is
+    one).  m is given by its prime exponents a_p (0 <= a_p <= v_p(#E)), so a data-dependent test `c*P == O` is the linear constraint
+    "a_p <= v_p(c) for every p", and the claim clear_h(P) = [h_eff]P is "m | (c_result - h_eff)" on every branch.  A counterexample
+    (an order m) is replayed natively on a point of exactly that order."""
+    chk = ctx.chk
+    import sympy
+    out = []
+    for gname, proj, aff, hf, h_eff, curve in [('G1', 'ec::g1::G1', 'ec::g1::G1Affine', ref.H1_FACTORS, ref.H_EFF_G1, 'E1'),
+                                                ('G2', 'ec::g2::G2', 'ec::g2::G2Affine', ref.H2_FACTORS, ref.H_EFF_G2, 'E2')]:
+        fac = dict(hf)
+        fac[ref.R_ORDER] = 1
+        chk.ground('%s: group order = prod p^e over the listed primes (all prime)' % gname, all(sympy.isprime(p_) for p_ in fac), str(sorted(fac)[:6]))
+        av = {p_: z3.Int('%s_ordexp_%d' % (gname, i)) for i, p_ in enumerate(sorted(fac))}
+        box = z3.And(*[z3.And(av[p_] >= 0, av[p_] <= fac[p_]) for p_ in fac])
+
+        def divides(c, fac=fac, av=av):
+            """ord(P) | c"""
+            leaves = _distribute(c)
+            terms = []
+            for cond, v in leaves:
+                terms.append(z3.And(cond, *[av[p_] <= _val(p_, v, fac[p_]) for p_ in fac]))
+            return z3.simplify(z3.Or(*terms)) if len(terms) > 1 else z3.simplify(terms[0])
+        D = models.GroupDomain(proj.replace('::', r'::'), aff).setup(1, proj, aff)
+        D.zero_pred = divides
+        ex = C.new_executor(ctx, D.models(), generics_hint={'chain_z': {'PtT': proj}, 'chain_h2_eff': {'PtT': proj}})
+        st = State()
+        st.pc.append(box)
+        p = ex.alloc(st, GE(proj, [1]))
+        ex.call(st, '<%s as ClearH>::clear_h' % proj, [p])
+        h = ex.load(st, p).c[0]
+        name = '%s: clear_h(P) = [h_eff]P for a point of ANY finite order m | #E (order-dependent branches included)' % gname
+        diff = h - h_eff if isinstance(h, int) else h - z3.IntVal(h_eff)
+        chk.must_unsat(name, z3.And(box, z3.Not(divides(diff))), group='finite-order', meta={'finite_order': gname, 'primes': sorted(fac), 'vars': {str(av[p_]): p_ for p_ in fac}})
+        chk.must_sat('%s: finite-order obligation is not vacuous (order r is admitted)' % gname, z3.And(box, av[ref.R_ORDER] == 1))
+        chk.panic_obligations(ex, gname + '.clear_h (finite order)')
+        chk.add_executor(ex)
+    return out
+
+
+def _point_of_order(curve, m, n_total, rnd, fq2, factors):
+    """a point of exact order m on the curve (python reference), or None.  The Sylow subgroups need not be cyclic, so a random point
+    is first stripped of every prime not dividing m, its exact order is computed, and it is scaled down to order m when possible."""
+    mf = {p_: 0 for p_ in factors}
+    rest = m
+    for p_ in factors:
+        while rest % p_ == 0:
+            rest //= p_
+            mf[p_] += 1
+    if rest != 1:
+        return None
+    strip = 1
+    for p_, e_ in factors.items():
+        if mf[p_] == 0:
+            strip *= p_ ** e_
+    for _ in range(40):
+        if fq2:
+            x = (rnd.randrange(ref.Q), rnd.randrange(ref.Q))
+            rhs = ref.f2_add(ref.f2_mul(ref.f2_sqr(x), x), curve.b)
+            y = ref.f2_sqrt(rhs)
+        else:
+            x = rnd.randrange(ref.Q)
+            y = ref.fq_sqrt((x * x * x + curve.b) % ref.Q)
+        if y is None:
+            continue
+        P0 = curve.smul(strip, (x, y))
+        # exact order of P0 (divides prod_{p | m} p^e_p)
+        order = 1
+        for p_, e_ in factors.items():
+            if mf[p_] == 0:
+                continue
+            cof = 1
+            for q_, f_ in factors.items():
+                if mf[q_] and q_ != p_:
+                    cof *= q_ ** f_
+            T = curve.smul(cof, P0) if P0 is not None else None
+            k = 0
+            while T is not None and k <= e_:
+                T = curve.smul(p_, T)
+                k += 1
+            order *= p_ ** k
+        if m == 1:
+            return None
+        if order % m == 0 and P0 is not None:
+            P = curve.smul(order // m, P0)
+            if P is not None and curve.smul(m, P) is None:
+                return P
+    return None
+
+
+def confirm_finite_order(ctx, o, res):
+    """replay a finite-order counterexample natively: a point of exactly the order the solver chose, through the real clear_h"""
+    import random
+    meta = o.meta
+    gname = meta['finite_order']
+    model = o.model or {}
+    m = 1
+    for vname, p_ in meta['vars'].items():
+        m *= p_ ** int(model.get(vname, 0) or 0)
+    rnd = random.Random(ctx.seed + 17)
+    fq2 = gname == 'G2'
+    curve = ref.E2 if fq2 else ref.E1
+    n_total = (ref.H2 if fq2 else ref.H1) * ref.R_ORDER
+    factors = dict(ref.H2_FACTORS if fq2 else ref.H1_FACTORS)
+    factors[ref.R_ORDER] = 1
+    P = _point_of_order(curve, m, n_total, rnd, fq2, factors)
+    if P is None:
+        ctx.inconclusive('%s: no point of order %d found for the native replay of %s' % (gname, m, o.name))
+        return
+    h_eff = ref.H_EFF_G2 if fq2 else ref.H_EFF_G1
+    want = curve.smul(h_eff, P)
+    flat = (lambda pt: [c for co in pt for c in co]) if fq2 else (lambda pt: list(pt))
+    one = ['1', '0'] if fq2 else ['1']
+    cmd = ('g2_clear_h ' if fq2 else 'g1_clear_h ') + ' '.join('%x' % c for c in flat(P)) + ' ' + ' '.join(one)
+    n = load.Native('release')
+    try:
+        got = n.run([cmd])[0].strip()
+    finally:
+        n.close()
+    wtxt = 'inf' if want is None else ' '.join('%096x' % c for c in flat(want))
+    if got != wtxt:
+        ctx.violation('cofactor:finite-order:' + gname, 'cofactor clearing differs from [h_eff]P on a point of order %d: got %s, want %s' % (m, got[:50], wtxt[:50]),
+                      {'obligation': o.name, 'order': m, 'cmd': cmd, 'got': got, 'expected': wtxt, 'profile': 'release', 'solver_model': model})
+    else:
+        ctx.inconclusive('%s: the solver counterexample (order %d) does not reproduce natively' % (gname, m))
 
 
 def replay(ctx, path):
